@@ -118,7 +118,7 @@ class GSim(mosaik_api_v3.Simulator):
         self.sid = sid; self.beh = beh or {}
         self.meta = copy.deepcopy(self.meta)
         t = self.beh.get('type', 'time-based')
-        self.meta['type'] = t
+        self.meta['type'] = self.beh.get('meta_type', t)      # (meta_type: the type as the simulator spells it in its meta)
         m = self.meta['models']['M']
         if t == 'hybrid':
             m['trigger'] = ['ti', 't2']; m['non-persistent'] = ['eo', 'e2']; m['attrs'] = ['i', 'ti', 't2', 'po', 'eo', 'e2']
